@@ -75,8 +75,11 @@ class FortranGen:
         arrs = [n for n in D if isinstance(self.types.get(n), tuple)]
         w = [2, 4 if vs else 0, 3 if depth > 0 else 0, 1 if depth > 0 else 0,
              1 if depth > 0 else 0, 1 if arrs else 0, 1 if counters else 0, 1 if depth > 0 else 0,
-             0.5 if depth > 0 else 0]
+             0.5 if depth > 0 else 0, 0.8 if uts and depth > 0 else 0]
         k = t.weighted(w, "real")
+        if k == 9:
+            # a call on a user-type value inside an expression (possibly inside a loop body)
+            return Call("<builtin>norm_2", [Var(self.pick(uts, "nrm"))])
         if k == 0:
             c = self.pick(SMALL + DYADIC + [1e-3, 1e5, -7.0, 1e-05, 2.5e-07, 1.5e+16, -3e-06], "c")
             return Const(c)
@@ -340,7 +343,8 @@ class FortranGen:
             lo = t.draw(n, "lo")
             hi = lo + t.draw(n - lo + 1, "hi")
             self.counter_range = {"i": (lo, hi)}
-            return ("assign", s, None, Bin("+", Var(s), Sub(a, Var("i"))), [("i", Const(lo), Const(hi))], self.mode())
+            term = Sub(a, Var("i")) if t.chance(0.5, "accsub") else self.g_real(D - {s}, 1, counters=("i",))
+            return ("assign", s, None, Bin("+", Var(s), term), [("i", Const(lo), Const(hi))], self.mode())
         if k == 12:
             arrs = sorted(n for n in D if isinstance(self.types.get(n), tuple))
             cands = [n for n in SC_TEMPS if self.cls.get(n, "exact") == "exact"]
@@ -367,7 +371,30 @@ class FortranGen:
                 return None
             a = self.pick(arrs, "ta")
             n = self.types[a][1]
-            form = t.weighted([2, 2 if n in (2, 4) else 0, 1.5 if n in (2, 4) else 0], "aform")
+            form = t.weighted([2, 2 if n in (2, 4) else 0, 1.5 if n in (2, 4) else 0, 2.5], "aform")
+            if form == 3:
+                # whole-array arithmetic assigned to an array variable; elements are read later
+                tgt = self.new_name([x for x in ARR_TEMPS if x != a], ("arr", n), D, reuse_p=0.0)
+                if tgt is None or tgt in D:
+                    return None
+                others = [x for x in arrs if self.types[x][1] == n]
+                e = [Bin("+", Var(a), Var(self.pick(others, "wb"))),
+                     Bin("*", Const(self.pick([2.0, 0.5, -1.0], "wc")), Var(a)),
+                     Bin("-", Var(a), Bin("*", Var("<dt>"), Var(self.pick(others, "wb2"))))][t.draw(3, "wform")]
+                D.add(tgt)
+                out = [("assign", tgt, None, e, [], self.mode())]
+                # read the first and last element right away (array bounds of the result matter)
+                cands = [x for x in SC_TEMPS if self.cls.get(x, "inexact") == "inexact"]
+                if "<state>r" in self.types and t.chance(0.5, "rdpers"):
+                    rd = "<state>r"
+                else:
+                    rd = self.new_name(cands, "real", D)
+                if rd is not None:
+                    self.cls[rd] = "inexact"
+                    D.add(rd)
+                    out.append(("assign", rd, None, Bin("+", Sub(tgt, Const(0)), Bin("*", Const(2.0), Sub(tgt, Const(n - 1)))),
+                                [], self.mode()))
+                return out
             if form == 0:
                 tgt = self.new_name([x for x in ARR_TEMPS if x != a], ("arr", n), D, reuse_p=0.0)
                 if tgt is None or tgt in D:
